@@ -26,7 +26,10 @@ impl<T: RefCnt> Protected<T> for T {
 impl<T: RefCnt> InnerStrategy<T> for RwLock<()> {
     type Protected = T;
     unsafe fn load(&self, storage: &AtomicPtr<T::Base>) -> T {
+        #[cfg(not(arc_swap_verif))]
         let _guard = self.read().expect("We don't panic in here");
+        #[cfg(arc_swap_verif)]
+        let _guard = crate::verif::lock::read(self);
         let ptr = storage.load(Ordering::Acquire);
         let ptr = T::from_ptr(ptr as *const T::Base);
         T::inc(&ptr);
@@ -36,7 +39,10 @@ impl<T: RefCnt> InnerStrategy<T> for RwLock<()> {
 
     unsafe fn wait_for_readers(&self, _: *const T::Base, _: &AtomicPtr<T::Base>) {
         // By acquiring the write lock, we make sure there are no read locks present across it.
+        #[cfg(not(arc_swap_verif))]
         drop(self.write().expect("We don't panic in here"));
+        #[cfg(arc_swap_verif)]
+        drop(crate::verif::lock::write(self));
     }
 }
 
@@ -47,7 +53,10 @@ impl<T: RefCnt> CaS<T> for RwLock<()> {
         current: C,
         new: T,
     ) -> Self::Protected {
+        #[cfg(not(arc_swap_verif))]
         let _lock = self.write();
+        #[cfg(arc_swap_verif)]
+        let _lock = crate::verif::lock::write(self);
         let cur = current.as_raw();
         let new = T::into_ptr(new);
         let swapped = storage.compare_exchange(cur, new, Ordering::AcqRel, Ordering::Relaxed);
